@@ -47,6 +47,10 @@ for d, pkg, title, ctor, verify, hspkg, hdrtype, imp, mk, path in routers:
      ],
      'outside_claim': ['soundness/completeness of the MPT proof verification (go-ethereum trie, rlp, light), the RLP account comparison, the Keccak binding of the proven value'],
     }
+    if d != 'bsc':
+        # package loading costs about a minute per router: the quick tier runs eth, bsc and quorum only
+        for h in spec['harnesses']:
+            h['tiers'] = ['thorough']
     if imp == HSETH:
         spec['overrides']['github.com/polynetwork/poly/native/service/header_sync/eth/rlp.init'] = 'zzNoInit'
     if d == 'polygon':
